@@ -215,7 +215,7 @@ pub fn run(tier: Tier, _replay: Option<String>) -> i32 {
                     let windows: Vec<(f64, f64, u64)> = match tier {
                         // (step_size_window, early_window, switch_freq); the last ones make the early
                         // window overlap the final step-size window (early + final > 1)
-                        Tier::Quick => vec![(0.15, 0.3, 80), (0.5, 0.1, 5), (0.6, 0.5, 2), (1.0, 0.3, 3)],
+                        Tier::Quick => vec![(0.15, 0.3, 80), (0.5, 0.1, 5), (0.0, 0.0, 1), (0.6, 0.5, 2), (1.0, 0.3, 3)],
                         Tier::Thorough => vec![(0.15, 0.3, 80), (0.5, 0.1, 5), (0.0, 0.0, 1), (0.9, 0.05, 3), (0.07, 0.5, 20), (0.6, 0.5, 2), (1.0, 0.3, 3), (0.7, 0.6, 1)],
                     };
                     for (ssw, ew, sf) in windows {
